@@ -549,12 +549,12 @@ func (i *interpreter) concValue(x value, why string) value {
 // index with bounds check on a possibly symbolic index; returns concrete index.
 func (i *interpreter) boundedIndex(idx value, n int, what string) int {
 	if s, ok := idx.(symInt); ok {
-		w := s.t.W
 		var inRange *sym.Term
 		if kindSigned(s.k) {
-			inRange = sym.And(sym.Cmp(sym.OpSLe, sym.BV(w, 0), s.t), sym.Cmp(sym.OpSLt, s.t, sym.BV(w, uint64(n))))
+			t64 := sym.SExt(s.t, 64)
+			inRange = sym.And(sym.Cmp(sym.OpSLe, sym.BV(64, 0), t64), sym.Cmp(sym.OpSLt, t64, sym.BV(64, uint64(n))))
 		} else {
-			inRange = sym.Cmp(sym.OpULt, s.t, sym.BV(w, uint64(n)))
+			inRange = sym.Cmp(sym.OpULt, sym.ZExt(s.t, 64), sym.BV(64, uint64(n)))
 		}
 		if !i.path.branch(inRange) {
 			panic(runtimeError(fmt.Sprintf("index out of range [symbolic] with length %d", n)))
